@@ -5,7 +5,7 @@
    (Gen/GridRcbGen.v): TOLERANCE, the least chunk count, the least chunk size,
    the starting axes. *)
 From Coupe Require Import Lib.Prelude Lib.SFloat Model.GridRcb Gen.GridRcbGen Run.RunC10
-  Proofs.GridRcbMedian Proofs.GridRcbTree Proofs.GridRcbChecker Proofs.GridRcbWitness Proofs.GridRcbFloat
+  Proofs.GridRcbMedian Proofs.GridRcbTree Proofs.GridRcbChecker Proofs.GridRcbWitness Proofs.GridRcbFloat Proofs.GridRcbBoxes
   Proofs.GridRcbMain.
 Open Scope Z_scope.
 
@@ -95,6 +95,17 @@ Theorem C10_gridrcb_boxes_all : forall fuel T fw ds ws k,
               /\ C10_spec bal_prop (start_of cfg_impl ds) ds ws k ids.
 Proof. exact (gridrcb_boxes_all cfg_impl C10_literals eq_refl). Qed.
 Print Assumptions C10_gridrcb_boxes_all.
+
+(* ---- the parts are axis-aligned boxes ----
+   for a tree as in C10_spec and any id q, the cells of the box that part_of
+   sends to q are exactly the cells of one sub-box (possibly an empty one) *)
+Theorem C10_parts_are_boxes : forall D f bal k c sub t,
+  TreeOK D f bal k c sub t -> sub <> [] ->
+  forall id q, exists box,
+    (forall pos, in_box box pos -> in_box sub pos) /\
+    (forall pos, in_box sub pos -> (part_of D t pos c id = Ok q <-> in_box box pos)).
+Proof. exact parts_are_boxes. Qed.
+Print Assumptions C10_parts_are_boxes.
 
 (* ---- the checker run on the implementation's outputs is sound for the property ---- *)
 Theorem C10_checker_sound : forall s ds ws k ids,
